@@ -132,6 +132,35 @@ package generator
 //@ extern strings.ReplaceAll(s string, from string, to string) (res string)
 //@   pure
 //@   ensures res == strReplaceAll(s, from, to)
+// Writing a generated file: afterwards the file holds exactly the generated text, whatever
+// was in it before (C12: the output is a function of the schema alone). The file system is
+// the ghost map fileContent (path -> content); a freshly opened file is written from offset 0.
+//@ ghost fileContent smap
+//@ spec pathId(p string) int
+//@ spec tailAfter(old string, n int) string = ite(n >= len(old), "", from(old, n))
+//@ ghostfield fileName string
+//@ extern os.Create(name string) (f *os.File, err error)
+//@   modifies fileContent
+//@   ensures imp(err == nil, f != nil && fileName(f) == name && sel(fileContent, pathId(name)) == "")
+//@   ensures imp(err != nil, fileContent == old(fileContent))
+//@ extern os.OpenFile(name string, flag int, perm os.FileMode) (f *os.File, err error)
+//@   modifies fileContent
+//@   ensures imp(err == nil, f != nil && fileName(f) == name && sel(fileContent, pathId(name)) == ite((flag / 512) % 2 == 1, "", old(sel(fileContent, pathId(name)))))
+//@   ensures imp(err != nil, fileContent == old(fileContent))
+//@ extern os.WriteFile(name string, data []byte, perm os.FileMode) (err error)
+//@   modifies fileContent
+//@   ensures imp(err == nil, sel(fileContent, pathId(name)) == string(data))
+//@ extern fmt.Fprint(w io.Writer, a ...interface{}) (n int, err error)
+//@   modifies fileContent
+//@   ensures imp(err == nil && len(a) == 1 && istype(nth(a, 0), string), sel(fileContent, pathId(fileName(w))) == cat(unbox_string(nth(a, 0)), tailAfter(old(sel(fileContent, pathId(fileName(w)))), len(unbox_string(nth(a, 0))))))
+//@ extern (f *os.File) WriteString(s string) (n int, err error)
+//@   modifies fileContent
+//@   ensures imp(err == nil, sel(fileContent, pathId(fileName(f))) == cat(s, tailAfter(old(sel(fileContent, pathId(fileName(f)))), len(s))))
+//@ extern (f *os.File) Close() (err error)
+//@   pure
+//@ func (g *Generator) write(path string, data string) (err error)
+//@   modifies fileContent
+//@   ensures[C12] @exactly imp(err == nil, sel(fileContent, pathId(path)) == data)
 //@ func (g *Generator) checkName(name string) (err error)
 //@   pure
 //@ func (g *Generator) Execute(outputDirPath string) (err error)
